@@ -4,7 +4,7 @@ runs seedtest.py, writes RESULT.json next to the seed and prints the one-line su
 import sys, re, subprocess, os, json, shlex
 P = sys.argv[1]; ks = sys.argv[2].split(","); drivers = sys.argv[3] if len(sys.argv) > 3 else P.lower()
 for k in ks:
-    d = f"/var/tmp/seed-{P}-out/{k}"
+    d = f"/var/tmp/{os.environ.get('SEEDPREFIX','seed')}-{P}-out/{k}"
     readme = open(os.path.join(d, "README.md")).read()
     m = re.search(r"^demo:\s*(.*)$", readme, re.M)
     if not m: print(d, "no demo: line"); continue
